@@ -321,5 +321,109 @@ Section RemH.
             -- rewrite andb_true_r. rewrite <- Hnp by (simpl; auto). simpl. rewrite !Nat.eqb_refl. reflexivity.
             -- now rewrite andb_false_r.
     Qed.
+
+    (** ** where the four pointers lie *)
+    Lemma referrer_path : forall T a b, is_leaf T = false ->
+      In (snd (referrer h (ByKey kk) T a b)) (pathin B kk T) /\
+      (fst (referrer h (ByKey kk) T a b) = b \/ In (fst (referrer h (ByKey kk) T a b)) (pathin B kk T)).
+    Proof.
+      induction T as [i|i l IHl rr IHr]; intros a b H; [discriminate|]. cbn [referrer dside pathin].
+      unfold pchild. destruct (PatInv.pbit kk (B i)).
+      - destruct rr as [j|j x y]; [simpl; auto|]. destruct (IHr b i eq_refl) as [Q1 [Q2 | Q2]]; split; simpl; auto;
+          try (rewrite Q2; auto).
+      - destruct l as [j|j x y]; [simpl; auto|]. destruct (IHl b i eq_refl) as [Q1 [Q2 | Q2]]; split; simpl; auto;
+          try (rewrite Q2; auto).
+    Qed.
+
+    Lemma referrer_lastinner : forall T a b, snd (referrer h (ByKey kk) T a b) = lastinner B kk T b.
+    Proof.
+      induction T as [i|i l IHl rr IHr]; intros a b; [reflexivity|]. cbn [referrer dside lastinner].
+      unfold pchild. destruct (PatInv.pbit kk (B i)); auto.
+    Qed.
+
+    Lemma nparent_path : forall T b,
+      nparent h (ByKey kk) n T b = b \/ In (nparent h (ByKey kk) n T b) (pathin B kk T).
+    Proof.
+      induction T as [i|i l IHl rr IHr]; intros b; [simpl; auto|]. cbn [nparent dside pathin].
+      destruct (Nat.eqb i n); auto. unfold pchild. destruct (PatInv.pbit kk (B i)).
+      - destruct (IHr i) as [Q | Q]; right; simpl; [rewrite Q|]; auto.
+      - destruct (IHl i) as [Q | Q]; right; simpl; [rewrite Q|]; auto.
+    Qed.
+
+    (** ** the state after the re-linking (for any heap that implements it) *)
+    Hypothesis GK : forall j jn, nth_error h j = Some jn -> j <> n ->
+      exists jn', nth_error H' j = Some jn' /\ n_key jn' = n_key jn /\ n_val jn' = n_val jn.
+
+    Theorem remove_represented : forall rn0 c0 T,
+      nth_error h r0 = Some rn0 -> n_bp rn0 = 0 -> n_left rn0 = Some c0 -> n_right rn0 = None ->
+      Rep h 0 c0 T -> is_leaf T = false ->
+      NoDup (inners T) -> NoDup (leaves T) -> owns T -> tbits B K T -> In r0 (leaves T) ->
+      ts B kk T = n -> referrer h (ByKey kk) T r0 r0 = (rp, r) ->
+      (In n (inners T) -> nparent h (ByKey kk) n T r0 = np) -> (~ In n (inners T) -> np = r) ->
+      let T' := tdel B kk n r T in
+      let root' := rho n r r0 in
+      exists rn0', nth_error H' root' = Some rn0' /\ n_bp rn0' = 0 /\
+        n_left rn0' = Some (newlink T c0) /\ n_right rn0' = None /\
+        Rep H' 0 (newlink T c0) T' /\ owns T' /\ NoDup (leaves T') /\ NoDup (inners T') /\
+        In root' (leaves T') /\ tbits (nbp H') (nkey H') T' /\
+        (forall j, In j (leaves T') <-> In j (leaves T) /\ j <> n) /\
+        (forall j, In j (leaves T') -> nkey H' j = K j).
+    Proof.
+      intros rn0 c0 T H0 Hb0 HL0 HR0 R NLf NDi NDl OW TB RL Hn Hrf Hnp Hnp2 T' root'.
+      assert (R0I : ~ In r0 (inners T)).
+      { intros I. pose proof (rep_inner_bp _ _ _ _ R r0 I) as Q. unfold nbp in Q. rewrite H0 in Q. lia. }
+      assert (LIR : forall j, In j (leaves T) -> j = r0 \/ In j (inners T)) by (now apply leaf_inner_or_root).
+      assert (NL : In n (leaves T)) by (rewrite <- Hn; apply ts_in).
+      assert (NP : In n (inners T) -> In n (pathin B kk T)).
+      { intros I. rewrite <- Hn. apply target_on_path; auto. now rewrite Hn. }
+      destruct (referrer_path T r0 r0 NLf) as [RPa RPb]. rewrite Hrf in RPa, RPb. simpl in RPa, RPb.
+      assert (RI : In r (inners T)) by (now apply (pathin_inners B kk)).
+      assert (RR0 : r <> r0) by (intros ->; contradiction).
+      assert (NPP : np = r0 \/ In np (pathin B kk T)).
+      { destruct (LIR n NL) as [E | I].
+        - right. rewrite (Hnp2 (fun I => R0I (eq_ind _ (fun z => In z (inners T)) I _ E))). exact RPa.
+        - rewrite <- (Hnp I). apply nparent_path. }
+      destruct (del_core T 0 c0 R r0 r0 rn0 [] NLf H0 Hb0 Hn Hrf Hnp NDi NDl OW TB R0I) as [RP PH]; auto.
+      { intros j Hj. destruct (LIR j Hj); auto. }
+      { intros a [-> | [-> | []]]; exists rn0; split; auto; lia. }
+      { intros j [<- | [<- | [<- | [<- | []]]]]; auto.
+        - destruct (LIR n NL); auto.
+        - destruct RPb; auto.
+        - destruct NPP; auto. }
+      destruct (G r0 rn0 H0) as [rn0' [E1 [E2 [E3 E4]]]]; auto.
+      exists rn0'. fold root'. split; auto. split; [congruence|].
+      split; [rewrite E3, HL0; exact PH|]. split; [rewrite E4, HR0; unfold phi; simpl; now rewrite !andb_false_r|].
+      assert (LT : forall j, In j (leaves T') <-> In j (leaves T) /\ j <> n).
+      { intros j. unfold T'. rewrite (leaves_tdel B kk n r T NLf NDl j). now rewrite Hn. }
+      assert (RLI : r = lastinner B kk T r0).
+      { pose proof (referrer_lastinner T r0 r0) as Q. rewrite Hrf in Q. exact Q. }
+      assert (OW' : owns T') by (apply (owns_tdel B kk n r T r0); auto).
+      assert (NDl' : NoDup (leaves T')) by (now apply nodup_leaves_tdel).
+      split; [exact RP|]. split; auto. split; auto.
+      split; [eapply nodup_inners_derived; eauto|].
+      split.
+      { apply LT. unfold root', rho. destruct (Nat.eqb_spec r0 n) as [E|NE].
+        - split; [now apply owns_inner_leaf | congruence].
+        - split; auto. }
+      assert (KJ : forall j, In j (leaves T') -> nkey H' j = K j).
+      { intros j Hj. apply LT in Hj as [Hj NJ]. destruct (rep_valid _ _ _ _ R) as [_ VL]. specialize (VL j Hj).
+        destruct (nth_error h j) as [jn|] eqn:E; [|apply nth_error_None in E; lia].
+        destruct (GK j jn E NJ) as [jn' [F1 [F2 _]]]. unfold nkey. now rewrite E, F1. }
+      split; [|split; auto].
+      (* the bit invariant: first for the abstract bit positions, then transferred to H' *)
+      set (B2 := fun j => if Nat.eqb j r then (if Nat.eqb n r then B r else B n) else B j).
+      assert (TB2 : tbits B2 K T').
+      { apply (tbits_tdel B K kk n r B2) with (d := r0); auto.
+        - intros NE. unfold B2. rewrite Nat.eqb_refl. now rewrite (proj2 (Nat.eqb_neq n r) NE).
+        - intros j NE. unfold B2. now rewrite (proj2 (Nat.eqb_neq j r) NE). }
+      apply (tbits_ext2 B2 (nbp H') K (nkey H')); auto.
+      intros x Hx. destruct (inners_tdel_pre B K kk n r T r0 x NDi RLI NP Hx) as [j [Hj [NR ->]]].
+      destruct (rep_valid _ _ _ _ R) as [VI _]. specialize (VI j Hj).
+      destruct (nth_error h j) as [jn|] eqn:E; [|apply nth_error_None in E; lia].
+      destruct (G j jn E NR) as [jn' [F1 [F2 _]]]. unfold nbp at 1. rewrite F1, F2.
+      unfold B2, rho. destruct (Nat.eqb_spec j n) as [->|NJ].
+      - rewrite Nat.eqb_refl. rewrite (proj2 (Nat.eqb_neq n r) NR). unfold nbp. now rewrite E.
+      - rewrite (proj2 (Nat.eqb_neq j r) NR). unfold nbp. now rewrite E.
+    Qed.
   End Core.
 End RemH.
